@@ -63,7 +63,7 @@ def to_step(act, rng, idmap):
 def random_scenario(rng, nsteps):
     k = rng.randint(2, 6)
     names = {i + 1: s for i, s in enumerate(rng.sample(NAME_POOL, k))}
-    if rng.random() < 0.3:
+    if rng.random() < 0.2:
         names[90] = rng.choice(LONG_POOL)
     state = {n: None for n in names}     # None | "fresh" | "legacy" | "bad"
     steps = []
@@ -149,7 +149,11 @@ def run(ctx):
         scs[0]["id"] = 1
     else:
         if not thorough:
-            tests = rng.sample(tests, min(len(tests), 60))
+            # (histories on a file whose name is >= 65536 bytes are slow: every load of such a file allocates
+            #  a forged block size, see C04)
+            withlong = [t for t in tests if any(s["act"]["n"] == 3 for s in t)]
+            without = [t for t in tests if t not in withlong]
+            tests = rng.sample(without, min(len(without), 30)) + rng.sample(withlong, min(len(withlong), 8))
         for t in tests:
             two = rng.sample(NAME_POOL, 2)
             names = {1: two[0], 2: two[1], 90: rng.choice(LONG_POOL)}
@@ -158,7 +162,7 @@ def run(ctx):
             used = {s["n"] for s in steps}
             scs.append(dict(id=len(scs) + 1, names={str(k): v for k, v in names.items() if k in used}, steps=steps,
                             seed=rng.randint(1, 2 ** 31), noise=rng.random() < 0.3, kind="edge"))
-        for _ in range(120 if thorough else 25):
+        for _ in range(120 if thorough else 16):
             names, steps = random_scenario(rng, rng.randint(6, 18))
             scs.append(dict(id=len(scs) + 1, names={str(k): v for k, v in names.items()}, steps=steps,
                             seed=rng.randint(1, 2 ** 31), noise=rng.random() < 0.5, kind="random"))
